@@ -25,7 +25,7 @@ RULE = (
     "non-trivial = the optimized plan pushed columns / filters / partitions into the reader or answered a length from statistics, on a dataset with >= 2 files; distinct by (dataset hash, reader, query)"
 )
 ASSUMPTIONS = ["row order is compared only when divisions were requested and reported (the arrow reader lists files in directory order)", "user filters= follow pyarrow semantics (rows for which the condition is null are dropped)"]
-BUDGET_S = {"quick": 175, "thorough": 3000}
+BUDGET_S = {"quick": 175, "thorough": 900}
 NO_FRESH_CONFIRM = False
 MINIMISE_EVALS = {"quick": 25, "thorough": 120}
 
